@@ -47,16 +47,31 @@ def gd_of(ref: RG):
 def models_for(ref: RG, tag: str, K: int, max_card: int):
     order, parents, bi = rg_names(ref)
     out = []
+    hint = cards_hint()
     for k in range(K):
         h = hashlib.sha1(f"{_seed()}:{tag}:{k}".encode()).hexdigest()
         rng = random.Random(h)
+        card = {v: hint.get(v) or rng.randint(2, 2 + (k % 2)) for v in order} if hint else None
         try:
-            m = random_model(rng, order, parents, bi, max_card=max_card, clique_latents=(k % 2 == 1))
+            m = random_model(rng, order, parents, bi, max_card=max_card, clique_latents=(k % 2 == 1), card=card)
         except ModelTooLarge:
             kernel.count("model-too-large")
             continue
         out.append((h, m))
     return out
+
+
+def cards_hint() -> dict:
+    """Wide graphs: the driver may declare some nodes one-valued (constants), so that exact models stay small while the
+    algorithm still works on the whole graph.  {name: 1}; empty when the driver said nothing."""
+    c = kernel.LOG.case
+    h = c.get("cards") if isinstance(c, dict) else None
+    return dict(h) if isinstance(h, dict) else {}
+
+
+def semantic_feasible(ref: RG) -> bool:
+    live = len(ref.V) - sum(1 for v in ref.V if cards_hint().get(v.name) == 1)
+    return live <= CONFIG["max_nodes_semantic"] and len(ref.V) <= 16
 
 
 # ---------------------------------------------------------------------------------------
@@ -249,7 +264,10 @@ def _judge_common(label, snap, graph, X, Y, Z, res, raised):
     if bad:
         kernel.violation("C06", "vocabulary-id", f"{label} estimand {res} contains: {bad[:4]}", case=case)
     # semantics
-    if CONFIG["semantic"] and nV <= CONFIG["max_nodes_semantic"]:
+    if CONFIG["semantic"] and semantic_feasible(ref):
+        if cards_hint():
+            case["cards"] = cards_hint()
+            kernel.count("id:wide-graph-estimands-evaluated")
         prop = "C03" if conditional else "C01"
         tag = f"{sorted(map(str, ref.D))}|{sorted(sorted(map(str, e)) for e in ref.B)}|{case['X']}|{case['Y']}|{case['Z']}"
         check_effect(prop, res, ref, X, Y, Z, tag, case)
